@@ -37,7 +37,7 @@ type dispatchSys struct {
 	tcpAlloc interface{ Close() error }
 }
 
-func newDispatchSys(meta Meta, seed int64, _ any) (Sys, error) {
+func newDispatchSys(meta Meta, seed int64, init any) (Sys, error) {
 	s := &dispatchSys{mode: meta.Extra["mode"], seed: seed, st: "none", rng: rand.New(rand.NewSource(seed))} //nolint:gosec
 	var err error
 	switch s.mode {
@@ -62,8 +62,13 @@ func newDispatchSys(meta Meta, seed int64, _ any) (Sys, error) {
 		s.srv.policy = func(string) string { return "ok" }
 		s.srv.peers = []ccPeer{{"A", 1, &net.UDPAddr{IP: net.IPv4(10, 1, 0, 1).To4(), Port: 5001}}}
 		go s.srv.run()
+		// the initial state says whether the client has a STUN server address besides the TURN server's
+		stunAddr := saddr.String()
+		if st, _ := init.(map[string]any); st != nil && st["stun"] == false {
+			stunAddr = ""
+		}
 		s.cl, err = turn.NewClient(&turn.ClientConfig{
-			STUNServerAddr: saddr.String(), TURNServerAddr: saddr.String(), Conn: s.cconn, RTO: 50 * time.Millisecond,
+			STUNServerAddr: stunAddr, TURNServerAddr: saddr.String(), Conn: s.cconn, RTO: 50 * time.Millisecond,
 			Username: "u1", Password: "pw-u1", Realm: realm, LoggerFactory: quietLoggerFactory{}, Net: newFakeNet(),
 		})
 		if err == nil {
@@ -577,7 +582,7 @@ func (s *dispatchSys) doClient(a map[string]any, wait func()) ([]Obs, error) {
 	// liveness: the client's own transactions still complete
 	pd := make(chan error, 1)
 	go func() {
-		_, err := s.cl.SendBindingRequest()
+		_, err := s.cl.SendBindingRequestTo(s.sconn.addr) // (works with and without a configured STUN server address)
 		pd <- err
 	}()
 	time.Sleep(10 * time.Second)
